@@ -4,26 +4,12 @@ import binascii, re
 import gen_c17_csrc as CS
 
 MIX_OPT_CLASSES = True
-# c2mir's debug printer (option d -> print_node) reads wide / UTF-16 string literals out of bounds (print_chars16/32
-# index by byte offset; fixes/C17-2.patch).  Until that is in the tree, units with such literals are not compiled with d.
-DEBUG_WIDE_OK = False
-
-
-def tree_flags(repo):
-    """set the flags above from the tree under test (called by checks/c17.py and checks/c18.py)"""
-    global DEBUG_WIDE_OK
-    try:
-        txt = open(repo + '/c2mir/c2mir.c', errors='replace').read()
-        DEBUG_WIDE_OK = '((mir_char32 *) str)[i]' not in txt
-    except OSError:
-        DEBUG_WIDE_OK = False
-
-
 def debug_ok(src):
-    return DEBUG_WIDE_OK or re.search(r'\b(?:L|u|U)"', src) is None
+    """option d with wide / UTF-16 / UTF-32 string literals: fine since /repo 78890ed8 (print_chars16/32)"""
+    return True
 
 
-EXCLUDE_TAGS = set()   # tags of gen_c17_csrc units a caller wants left out (checks/c18.py: defect awaiting its fix commit)
+EXCLUDE_TAGS = set()   # tags of gen_c17_csrc units a caller wants left out (none at present)
 
 # C translation units; every one defines  long f@N@ (long n)  and uses no external header file
 # (c2mir's built-in <stdint.h>/<stddef.h>/<limits.h>/<stdarg.h> are strings inside c2mir.c)
@@ -657,6 +643,9 @@ def valid(lines):
             if not s['c2m'] or a1 is None or a2 is None:
                 return False
             s['mods'].append(['f' + a1[1:-2]])
+        elif cmd == 'c2mx':
+            if not s['c2m'] or a1 is None or a2 is None:
+                return False
         elif cmd == 'c2mo':
             if not s['c2m'] or a1 is None or a2 is None or a3 is None:
                 return False
